@@ -57,12 +57,12 @@ Definition registry_universe_ok := universe_ok registry_key registry_admissible.
 
 Lemma d8_universe legacy : registry_universe_ok (d8_flavour legacy) (map fst d8_history).
 Proof.
-  split.
-  - intros v [<-|[]]. split; [discriminate|]. split; [|split].
-    + intros b Hb. simpl in Hb. repeat (destruct Hb as [<-|Hb]; [discriminate|]). destruct Hb.
-    + unfold keys_unique. concrete_nodup.
-    + vm_compute. reflexivity.
-  - intros v w [<-|[]] [<-|[]]. intros n bv bw _ _ _. apply agree_upto_refl.
+  destruct legacy; (split;
+  [ intros v [<-|[]]; split; [discriminate|]; split; [|split];
+    [ intros b Hb; simpl in Hb; repeat (destruct Hb as [<-|Hb]; [discriminate|]); destruct Hb
+    | unfold keys_unique; concrete_nodup
+    | vm_compute; reflexivity ]
+  | intros v w [<-|[]] [<-|[]]; intros n bv bw _ _ _; apply agree_upto_refl ]).
 Qed.
 
 Theorem exact_when_canonical_legacy_refuted :
@@ -78,7 +78,7 @@ Theorem exact_when_canonical_legacy_refuted :
                   st_rows (g_st (registry_grun fl history)) <> rows_of registry_admissible v (fl_first_start fl) k.
 Proof.
   exists d8_history, d8_view. simpl. split; [reflexivity|]. split; [left; reflexivity|].
-  split; [apply d8_universe|]. split; [intros u [<-|[]]; vm_compute; reflexivity|].
+  split; [exact (d8_universe true)|]. split; [intros u [<-|[]]; vm_compute; reflexivity|].
   split; [split; exact I|].
   exists 5, (hx "05"), (mkblk (hx "05") []). split; [vm_compute; reflexivity|].
   split; [reflexivity|]. split; [reflexivity|]. vm_compute. discriminate.
